@@ -30,14 +30,14 @@ RULE = ('cases: seeded batch_run calls on a self-identifying fixture model: grid
         'multiset of parameter combinations == product x repetitions; each run recorded exactly timesteps 0..min(completion, limit)-1; '
         'product order for one process; injected fault reaches the caller as the same type and tag. Non-trivial batch: >=2 processes, '
         '>=4 executions and either a completion order different from submission order or a fault; distinct by the batch signature.')
-ASSUMPTIONS = ['fault position = n-th model construction (global ordinal claimed through O_EXCL files), which equals the list position for one '
-               'process and approximates it for several', 'a hung pool is reported as inconclusive by the watchdog, not as a violation']
+ASSUMPTIONS = ['a batch_run call that hangs in Pool.terminate() after a failed execution is the known finding F7; any other hang is inconclusive',
+               'fault position = n-th model construction (global ordinal claimed through O_EXCL files), which equals the list position for one '
+               'process and approximates it for several', 'a hang outside that mechanism is reported as inconclusive by the watchdog, not as a violation']
 FLOORS = {'quick': {'batches': 100, 'executions_checked': 350, 'records_checked': 1500, 'fault_batches': 30, 'faults_propagated': 30,
                     'multi_process_batches': 50, 'reordered_batches': 5, 'serial_order_checks': 10, 'limit_below_completion': 15,
                     'limit_above_completion': 15, 'multi_collector_batches': 20, 'no_collector_batches': 8, 'parameter_list_with_history': 15, 'procs_1': 20, 'procs_2_4': 20, 'procs_5_8': 8, 'procs_9_16': 8},
           'thorough': {'batches': 3000, 'fault_batches': 1000, 'reordered_batches': 200, 'procs_9_16': 200}}
 EXHAUSTIVE = {}
-HUNG = []
 
 
 def gen_grid(rng):
@@ -119,42 +119,66 @@ def to_jsonable(spec):
     return s
 
 
-def run_child(specs):
+def run_child(ctx, specs):
+    """Runs the batches in child interpreters.  A batch_run call that does not return within the per-batch watchdog makes the child
+    dump its thread stacks and exit; the batch that hung is classified from that dump and the remaining batches continue in a
+    fresh child."""
     here = os.path.dirname(os.path.dirname(os.path.abspath(__file__)))
-    fd, path = tempfile.mkstemp(prefix='c15-specs-', suffix='.json')
-    try:
-        # ranges cannot be JSON: the child rebuilds them
-        js = []
-        for s in specs:
-            s2 = dict(s)
-            s2['grid'] = {k: (v if not (isinstance(v, dict) and '__range__' in v) else v) for k, v in s['grid'].items()}
-            js.append(s2)
-        with os.fdopen(fd, 'w') as f:
-            json.dump(js, f)
-        env = dict(os.environ, VERIF_REPO=repo_root(), PYTHONHASHSEED='0', PYTHONDONTWRITEBYTECODE='1')
-        r = None
-        for attempt in range(3):
-            # A multiprocessing.Pool can (rarely, on a loaded machine) hang in CPython itself; a hang is retried in a fresh
-            # interpreter and only three hangs in a row make the run inconclusive.  It is never counted as 'held' or 'violated'.
+    env = dict(os.environ, VERIF_REPO=repo_root(), PYTHONHASHSEED='0', PYTHONDONTWRITEBYTECODE='1')
+    outs = {}
+    todo = list(specs)
+    last = None
+    rounds = 0
+    while todo:
+        rounds += 1
+        if rounds > len(specs) + 3:
+            raise Inconclusive('batch children keep dying without progress')
+        fd, path = tempfile.mkstemp(prefix='c15-specs-', suffix='.json')
+        try:
+            with os.fdopen(fd, 'w') as f:
+                json.dump(todo, f)
             try:
-                r = subprocess.run([sys.executable, '-B', os.path.join(here, 'vlib', 'fixtures', 'batch_child.py'), path], capture_output=True,
-                                   text=True, timeout=240, env=env, cwd=here)
-                break
+                last = subprocess.run([sys.executable, '-B', os.path.join(here, 'vlib', 'fixtures', 'batch_child.py'), path], capture_output=True,
+                                      text=True, timeout=60 * len(todo) + 120, env=env, cwd=here)
             except subprocess.TimeoutExpired:
-                HUNG.append([s['id'] for s in specs])
-        if r is None:
-            raise Inconclusive('a batch child interpreter hung three times in a row (pool never returned) - watchdog')
-        outs = {}
-        for line in r.stdout.splitlines():
+                raise Inconclusive('a batch child interpreter hung beyond its own watchdog')
+        finally:
+            if os.path.exists(path):
+                os.unlink(path)
+        started = None
+        for line in last.stdout.splitlines():
             try:
                 o = json.loads(line)
-                outs[o['id']] = o
             except Exception:  # noqa
-                pass
-        return outs, r
-    finally:
-        if os.path.exists(path):
-            os.unlink(path)
+                continue
+            if 'starting' in o:
+                started = o['starting']
+            elif 'id' in o:
+                outs[o['id']] = o
+                started = None
+        remaining = [s for s in todo if s['id'] not in outs]
+        if not remaining:
+            break
+        if started is None or len(remaining) == len(todo) and started != todo[0]['id']:
+            return outs, last            # the child died outside a batch: reported by the caller as a crash
+        hung = next(s for s in todo if s['id'] == started)
+        err = last.stderr
+        if 'Timeout (' in err:
+            # a batch_run call that never returned.  Known mechanism: the error of a failed execution makes batch_run leave its
+            # `with Pool(...)` block, Pool.terminate() then deadlocks inside CPython (task-handler thread blocked in put()).
+            in_terminate = '_terminate_pool' in err and 'Batching.py' in err and 'batch_run' in err
+            if in_terminate and hung.get('fault') is not None and hung['processes'] > 1:
+                ctx.finding('pool-terminate-deadlock-after-worker-failure',
+                            'batch_run hangs instead of raising: after a failed execution with processes > 1 the Pool.terminate() call '
+                            'made on leaving the with-block can deadlock inside multiprocessing (error never reaches the caller)',
+                            {'spec': {k: v for k, v in hung.items() if k != 'delays'}, 'stack_tail': err[-1200:]})
+                outs[hung['id']] = {'id': hung['id'], 'hung_known': True}
+            else:
+                raise Inconclusive(f'a batch_run call hung outside the known Pool.terminate mechanism (batch {started}): {err[-600:]}')
+        else:
+            return outs, last            # crashed inside a batch without the watchdog: caller reports it
+        todo = [s for s in todo if s['id'] not in outs]
+    return outs, last
 
 
 def check_batch(ctx, spec, out):
@@ -179,6 +203,9 @@ def check_batch(ctx, spec, out):
     pc = spec['processes']
     ctx.count('procs_1' if pc == 1 else ('procs_2_4' if pc <= 4 else ('procs_5_8' if pc <= 8 else 'procs_9_16')))
     fault = spec.get('fault')
+    if out.get('hung_known'):
+        ctx.count('fault_batches_hung_in_pool_terminate')
+        return
     if fault is not None:
         ctx.count('fault_batches')
         if 'raised' not in out:
@@ -279,7 +306,7 @@ def case_group(ctx, case):
     for j in range(0, len(specs), 12):
         chunk = specs[j:j + 12]
         # JSON cannot carry range objects: encode as dict marker, child decodes
-        outs, proc = run_child([encode(s) for s in chunk])
+        outs, proc = run_child(ctx, [encode(s) for s in chunk])
         for s in chunk:
             if s['id'] not in outs:
                 raise CaseViolation('a batch crashed its interpreter / produced no result', spec={k: v for k, v in s.items() if k != 'delays'},
@@ -304,9 +331,6 @@ def run(ctx):
     for i in range(N_GROUPS[ctx.tier]):
         if ctx.mine(i) and not ctx.full():
             ctx.run_case({'kind': 'group', 'i': i}, run_case)
-    if HUNG:
-        ctx.count('hung_children_retried', len(HUNG))
-        ctx.notes.append({'hung_children_retried': HUNG[:5]})
 
 
 def replay(ctx, case):
